@@ -355,7 +355,9 @@ func vxC20TabRun(ci interface{}, k *vstats.Case) error {
 			cfg.RootCAs = fx.pool(1)
 		}
 		if c.Own {
-			cfg.Certificates = []tls.Certificate{{Certificate: [][]byte{[]byte("a certificate the caller put there")}}}
+			// with room behind it, as a slice that was built with append usually has
+			cfg.Certificates = make([]tls.Certificate, 1, 3)
+			cfg.Certificates[0] = tls.Certificate{Certificate: [][]byte{[]byte("a certificate the caller put there")}}
 		}
 		return cfg
 	}
@@ -404,6 +406,15 @@ func vxC20TabRun(ci interface{}, k *vstats.Case) error {
 	// the caller's values are untouched, whatever the result
 	if *opts != optsWant {
 		return fmt.Errorf("setupTLSConfig changed the caller's SslOptions: %+v, was %+v", *opts, optsWant)
+	}
+	if c.Own && caller != nil {
+		// tls.Config.Clone copies the slice header only: what is appended to the clone's Certificates lands in
+		// the caller's backing array, where the next session set up from the same Config overwrites it
+		for i, ct := range caller.Certificates[:cap(caller.Certificates)] {
+			if i >= len(caller.Certificates) && (len(ct.Certificate) != 0 || ct.PrivateKey != nil) {
+				return fmt.Errorf("setupTLSConfig wrote its key pair into the spare capacity of the caller's Config.Certificates (slot %d of %d): the effective config of this session shares that slot with every later session set up from the same Config", i, cap(caller.Certificates))
+			}
+		}
 	}
 	var known error // a confirmed defect met on the way; reported after the remaining checks passed
 	if d := vxC20CfgDiff(caller, want); d != "" {
